@@ -64,6 +64,9 @@ class CSym(object):
         self.pdims = {p.name: inner_dims(p.ty) for p in func.params if p.ty and ("*" in p.ty or "[" in p.ty)}
         self.params = {p.name: p for p in func.params}
         self.branch_log = []
+        # local pointers bound once to a row / an element address of another array:  g = gv[k]; ... g[i]  reads as gv[k][i]
+        self.pdefs = {n: v for n, v in cfront.scalar_defs(func).items()
+                      if n in {x.name for x in func.locals.values() if x.ty and "*" in x.ty}}
 
     # ------------------------------------------------------------------ entry points
     def run(self, stmt=None, state=None):
@@ -280,6 +283,8 @@ class CSym(object):
             if inner.k == "var" and inner.name in self.params:
                 return ("param", inner.name, (0,))
             raise Unsupported("pointer dereference %s" % estr(e))
+        if self.pdefs and any(x.k == "var" and x.name in self.pdefs for x in cfront.ewalk(e)):
+            e = cfront.esubst(e, self.pdefs)
         v, subs = cfront.subscripts(e)
         if v is None:
             raise Unsupported("lvalue %s" % estr(e))
